@@ -2,7 +2,10 @@ package main
 
 import (
 	"fmt"
+	"math/rand"
 	"os"
+	"regexp"
+	"sort"
 	"strings"
 	"time"
 
@@ -124,5 +127,300 @@ func derivedVarsCases(col *Collector, sig string) {
 		}()
 		os.Remove(trace)
 		col.Add(cs)
+	}
+}
+
+// ---- generated scenarios, compared with Model/Derived.lean (oracle family `derived`) ----
+
+type dSeg struct {
+	lit  string
+	ref  string // "" = a literal
+	form int    // how the reference is written: 0 {{ .K }}, 1 {{ index . "K" }}, 2 {{ with $v := index . "K" }}{{ $v }}{{ end }}
+}
+
+var identRe = regexp.MustCompile(`^[A-Za-z_][A-Za-z0-9_]*$`)
+
+func (s dSeg) goText() string {
+	if s.ref == "" {
+		return s.lit
+	}
+	switch {
+	case s.form == 0 && identRe.MatchString(s.ref):
+		return "{{ ." + s.ref + " }}"
+	case s.form == 2:
+		return fmt.Sprintf(`{{ with $v := index . %q }}{{ $v }}{{ end }}`, s.ref)
+	}
+	return fmt.Sprintf(`{{ index . %q }}`, s.ref)
+}
+
+type dTmpl []dSeg
+
+func (t dTmpl) goText() string {
+	var b strings.Builder
+	for _, s := range t {
+		b.WriteString(s.goText())
+	}
+	return b.String()
+}
+
+func (t dTmpl) wire() string {
+	var p []string
+	for _, s := range t {
+		if s.ref != "" {
+			// how the reference is written decides what a missing variable gives (see goText)
+			switch {
+			case s.form == 0 && identRe.MatchString(s.ref):
+				p = append(p, "R"+s.ref)
+			case s.form == 2:
+				p = append(p, "W"+s.ref)
+			default:
+				p = append(p, "I"+s.ref)
+			}
+		} else if s.lit != "" {
+			p = append(p, "L"+hexOf(s.lit))
+		}
+	}
+	return strings.Join(p, ";")
+}
+
+type dEnv map[string]dTmpl
+
+func (e dEnv) wire() string {
+	if len(e) == 0 {
+		return "-"
+	}
+	var ks []string
+	for k := range e {
+		ks = append(ks, k)
+	}
+	sort.Strings(ks)
+	var p []string
+	for _, k := range ks {
+		p = append(p, k+":"+e[k].wire())
+	}
+	return strings.Join(p, ",")
+}
+
+func (e dEnv) container() variables.Container {
+	m := map[string]string{}
+	for k, t := range e {
+		m[k] = t.goText()
+	}
+	return variables.FromMap(m)
+}
+
+var dPrintRe = regexp.MustCompile(`(\S+?)=\[([^\]]*)\]`)
+
+// runner-level, task-level and stage-level variables drawn at random: base variables (always plain values, some
+// empty, some with dotted or dashed names) and derived ones (1-3 segments, references to base names - now and then to
+// a name nobody defines - in the three ways a template can write them), at any level; two tasks, 3-5 stages in a
+// chain, direct runs before and after. One oracle line per execution.
+func derivedGenCases(col *Collector, rng *rand.Rand, n int, sig string) {
+	bases := []string{"Who", "deploy.target", "X_1", "n-dash"}
+	deriveds := []string{"GreetG", "IdxG", "GreetT", "Mix", "label.full"}
+	words := []string{"a", "prod", "s1", "", "x-y", "v2.0", "eu/west"}
+	lits := []string{"hello-", "/", "", "task:", "_", "-to-"}
+	genEnv := func(pDerived float64) dEnv {
+		e := dEnv{}
+		for _, b := range bases {
+			if rng.Intn(3) == 0 {
+				e[b] = dTmpl{{lit: words[rng.Intn(len(words))]}}
+			}
+		}
+		for _, d := range deriveds {
+			if rng.Float64() < pDerived {
+				var t dTmpl
+				for k := 1 + rng.Intn(3); k > 0; k-- {
+					if rng.Intn(3) == 0 {
+						t = append(t, dSeg{lit: lits[rng.Intn(len(lits))]})
+						continue
+					}
+					ref := bases[rng.Intn(len(bases))]
+					form := rng.Intn(3)
+					if rng.Intn(10) == 0 {
+						ref, form = "Nobody", 0 // only {{ .Name }} reports a missing variable
+					}
+					t = append(t, dSeg{ref: ref, form: form})
+				}
+				e[d] = t
+			}
+		}
+		return e
+	}
+	for it := 0; it < n; it++ {
+		runnerE := genEnv(0.4)
+		// the runner level defines every base variable more often than not, so that most executions succeed
+		for _, b := range bases {
+			if _, ok := runnerE[b]; !ok && rng.Intn(4) != 0 {
+				runnerE[b] = dTmpl{{lit: words[rng.Intn(len(words))]}}
+			}
+		}
+		taskE := []dEnv{genEnv(0.3), genEnv(0.15)}
+		nst := 3 + rng.Intn(3)
+		type stg struct {
+			t int
+			e dEnv
+		}
+		var stages []stg
+		for i := 0; i < nst; i++ {
+			s := stg{t: rng.Intn(2), e: dEnv{}}
+			if rng.Intn(4) != 0 {
+				s.e = genEnv(0.1)
+			}
+			stages = append(stages, s)
+		}
+		directFirst := rng.Intn(2) == 0
+		trace := newTracePath()
+		// what an execution prints: every name its three levels define
+		printCmd := func(names []string) string {
+			var p []string
+			for _, k := range names {
+				p = append(p, fmt.Sprintf("%s=[%s]", k, dSeg{ref: k, form: 1}.goText()))
+			}
+			return fmt.Sprintf(`echo "who=$WHO %s" >> %s`, strings.Join(p, " "), trace)
+		}
+		namesOf := func(es ...dEnv) []string {
+			set := map[string]bool{}
+			for _, e := range es {
+				for k := range e {
+					set[k] = true
+				}
+			}
+			var ks []string
+			for k := range set {
+				ks = append(ks, k)
+			}
+			sort.Strings(ks)
+			return ks
+		}
+		// the command is a property of the TASK: it prints the names defined by the runner, by the task or by ANY stage
+		// using the task; a name that an execution does not define prints "<no value>" through index (no failure)
+		var tasks []*task.Task
+		taskNames := make([][]string, 2)
+		for i := range taskE {
+			es := []dEnv{runnerE, taskE[i]}
+			for _, s := range stages {
+				if s.t == i {
+					es = append(es, s.e)
+				}
+			}
+			taskNames[i] = namesOf(es...)
+			t := task.NewTask()
+			t.Name = fmt.Sprintf("t%d", i)
+			t.Commands = []string{printCmd(taskNames[i])}
+			t.Variables = taskE[i].container()
+			t.Env = variables.FromMap(map[string]string{"WHO": fmt.Sprintf("direct-t%d", i)})
+			tasks = append(tasks, t)
+		}
+		type execRec struct {
+			who  string
+			line string
+			q    []string
+		}
+		var execs []execRec
+		mkExec := func(who string, ti int, se dEnv) {
+			q := namesOf(runnerE, taskE[ti], se)
+			execs = append(execs, execRec{who, fmt.Sprintf("derived r=%s t=%s s=%s q=%s", runnerE.wire(), taskE[ti].wire(), se.wire(), strings.Join(q, ",")), q})
+		}
+		var sts []*scheduler.Stage
+		if directFirst {
+			mkExec("direct-t0#0", 0, nil)
+			mkExec("direct-t1#0", 1, nil)
+		}
+		for i, s := range stages {
+			st := &scheduler.Stage{Name: fmt.Sprintf("s%d", i), Task: tasks[s.t], AllowFailure: true, Env: variables.FromMap(map[string]string{"WHO": fmt.Sprintf("s%d", i)})}
+			if len(s.e) > 0 {
+				st.Variables = s.e.container()
+			}
+			if i > 0 {
+				st.DependsOn = []string{fmt.Sprintf("s%d", i-1)}
+			}
+			sts = append(sts, st)
+			mkExec(st.Name, s.t, s.e)
+		}
+		mkExec("direct-t0#1", 0, nil)
+		mkExec("direct-t1#1", 1, nil)
+		describe := fmt.Sprintf("runner variables {%s}; task t0 {%s}, t1 {%s}; stages (chain) %v; direct runs of both tasks %s the pipeline", runnerE.wire(), taskE[0].wire(), taskE[1].wire(),
+			func() []string {
+				var p []string
+				for i, s := range stages {
+					p = append(p, fmt.Sprintf("s%d=t%d{%s}", i, s.t, s.e.wire()))
+				}
+				return p
+			}(), map[bool]string{true: "before and after", false: "after"}[directFirst])
+		seen := map[string][]string{} // who -> printed lines, in order
+		var crashed string
+		func() {
+			defer func() {
+				if p := recover(); p != nil {
+					crashed = fmt.Sprint("panic: ", p)
+				}
+			}()
+			g, err := scheduler.NewExecutionGraph(sts...)
+			if err != nil {
+				crashed = "graph rejected: " + err.Error()
+				return
+			}
+			r, err := runner.NewTaskRunner(runner.WithVariables(runnerE.container()))
+			if err != nil {
+				crashed = err.Error()
+				return
+			}
+			r.Stdout, r.Stderr = devNull{}, devNull{}
+			if directFirst {
+				r.Run(tasks[0])
+				r.Run(tasks[1])
+			}
+			sd := scheduler.NewScheduler(r)
+			sd.VerifSetPause(time.Millisecond)
+			done := make(chan error, 1)
+			go func() { done <- sd.Schedule(g) }()
+			select {
+			case <-done:
+			case <-time.After(15 * time.Second):
+				crashed = "pipeline did not finish within 15s"
+				return
+			}
+			r.Run(tasks[0])
+			r.Run(tasks[1])
+		}()
+		for _, l := range readTrace(trace) {
+			if strings.HasPrefix(l, "who=") {
+				f := strings.SplitN(l, " ", 2)
+				seen[strings.TrimPrefix(f[0], "who=")] = append(seen[strings.TrimPrefix(f[0], "who=")], l)
+			}
+		}
+		os.Remove(trace)
+		// direct runs print under "direct-tN": the first belongs to the run before the pipeline (when there is one).
+		// A failed execution prints nothing, so the lines of direct runs are attributed by what the MODEL says about
+		// the first one: both direct runs of a task see the same variables, hence fail or succeed together.
+		for _, e := range execs {
+			cs := Case{Line: e.line, Tags: []string{"derived-generated"}, NonTrivial: true, Replay: describe + "; execution " + e.who}
+			who := e.who
+			idx := 0
+			if i := strings.Index(who, "#"); i >= 0 {
+				if who[i+1] == '1' && directFirst {
+					idx = 1
+				}
+				who = who[:i]
+			}
+			switch {
+			case crashed != "":
+				cs.Fail, cs.Sig = crashed, sig
+			case idx >= len(seen[who]):
+				cs.Impl = "FAIL"
+			default:
+				got := map[string]string{}
+				for _, m := range dPrintRe.FindAllStringSubmatch(seen[who][idx], -1) {
+					got[m[1]] = m[2]
+				}
+				var p []string
+				for _, k := range e.q {
+					p = append(p, k+"="+hexOf(got[k]))
+				}
+				cs.Impl = strings.Join(p, " ")
+			}
+			col.Add(cs)
+		}
 	}
 }
